@@ -76,4 +76,22 @@ __CPROVER_requires(verif_exc == 0 && g_x < 4 && g_y < 4)
 __CPROVER_ensures((verif_exc == 0) == (g_spec_singular == 0))
 __CPROVER_ensures(verif_exc == 0 ==> biteq(__CPROVER_return_value.m[g_x][g_y], g_spec_R.m[g_x][g_y]))
 __CPROVER_assigns(verif_exc);
+
+/* ---- Matrix4<double>::operator*(Matrix4) and operator*=(Matrix4): the textbook product over uninterpreted arithmetic ----
+ * entry (column x, row y) of A * B is  sum_z A.m[z][y] * B.m[x][z], accumulated from 0 in the order z = 0, 1, 2, 3 (the order is part of
+ * the reference because + is uninterpreted: every interpretation, IEEE double among them).  A *= B stores that product in A and returns
+ * it -- also when B is A itself (the product is formed from the values the operands had at the call). */
+#define SPEC_PROD_TERM(acc, A, B, x, y, z) UF_ADD(acc, UF_MUL((A)->m[z][y], (B)->m[x][z]))
+#define SPEC_PROD(A, B, x, y) SPEC_PROD_TERM(SPEC_PROD_TERM(SPEC_PROD_TERM(SPEC_PROD_TERM(0.0, A, B, x, y, 0), A, B, x, y, 1), A, B, x, y, 2), A, B, x, y, 3)
+extern double g_spec_P;          /* ghost: SPEC_PROD of the operand values at the call, at the ghost entry (set by the caller) */
+
+Matrix4 Matrix4_mulm(const Matrix4* self, const Matrix4* other)
+__CPROVER_requires(g_x < 4 && g_y < 4 && biteq(g_spec_P, SPEC_PROD(self, other, g_x, g_y)))
+__CPROVER_ensures(biteq(__CPROVER_return_value.m[g_x][g_y], g_spec_P))
+__CPROVER_assigns();
+
+Matrix4 Matrix4_imulm(Matrix4* self, const Matrix4* other)
+__CPROVER_requires(g_x < 4 && g_y < 4 && biteq(g_spec_P, SPEC_PROD(self, other, g_x, g_y)))
+__CPROVER_ensures(biteq(self->m[g_x][g_y], g_spec_P) && biteq(__CPROVER_return_value.m[g_x][g_y], g_spec_P))
+__CPROVER_assigns(__CPROVER_object_whole(self));
 #endif
